@@ -39,7 +39,7 @@ def parseMode (s : String) : Option (Option Nat) :=
     | none => none
   else none
 
-def memOf (a : Array UInt8) : Mem := fun i => a.getD i 0
+def memOf (a : Array UInt8) : Mem := memOfArray a
 
 def showSize (n : Nat) : String := if n ≥ 2 ^ 63 then toString ((n : Int) - two64) else toString n
 
@@ -56,19 +56,9 @@ def natOfTok (s : String) : Option Nat :=
 
 /-! ### the executable specification -/
 
-/-- The part of the buffer the call is allowed to look at, from `start`: `none` when the call's
-    precondition does not hold (start beyond the length, no terminator, length beyond the buffer). -/
-def effective (a : Array UInt8) (len : Option Nat) (start : Nat) : Option (List Nat) :=
-  let bs := (a.toList.map (·.toNat)).drop start
-  match len with
-  | none =>
-    if start ≤ a.size ∧ bs.any (· == 0) then some (bs.takeWhile (· != 0)) else none
-  | some l =>
-    if start > l then none
-    else
-      let win := bs.take (l - start)
-      if win.any (· == 0) then some (win.takeWhile (· != 0))
-      else if l ≤ a.size then some win else none
+/-- The part of the buffer the call is allowed to look at (`Utf8.effectiveOf`, proved sound in
+    `Props.C07.oracle_input`). -/
+def effective (a : Array UInt8) (len : Option Nat) (start : Nat) : Option (List Nat) := effectiveOf a len start
 
 def specCount (a : Array UInt8) (len : Option Nat) (limit : Option Limit) (start : Pos) : Option (Res × String) :=
   match effective a len start.bytes with
